@@ -305,6 +305,66 @@ static RunInfo run_history_forked(const std::vector<Op> & ops)
   return ri;
 }
 
+// ---- deep single-instance histories: state that BUILDS UP inside one instance over thousands of shots (a cache filled shot by shot, keyed by a
+// sampled value) never shows within ~100 operations or with 60 recurring tapes.  One instance shoots `warm` distinct tapes, then every further
+// tape is shot twice: by the warmed instance and by its COLD TWIN - a process forked right after initialize() that has never shot - and the two
+// events must be bit-identical, deviate count included.  Runs in its own forked child; `only` >= 0 compares just that tape (replay / minimisation).
+struct DeepRes { bool ok = true; long tape = -1; std::string msg; long compared = 0; };
+static void ev_flat(const bxdecay0::event & e, size_t used, std::vector<double> & v)
+{ v.clear(); v.push_back((double)used); v.push_back(e.get_time()); for (auto & p : e.get_particles()) { v.push_back((double)p.get_code()); v.push_back(p.get_time()); v.push_back(p.get_px()); v.push_back(p.get_py()); v.push_back(p.get_pz()); } }
+static DeepRes deep_history_forked(int cfg, uint32_t iseed, long warm, long ncmp, long only)
+{
+  int p[2]; if (pipe(p)) throw std::runtime_error("pipe");
+  pid_t c = fork();
+  if (c == 0) {
+    close(p[0]); DeepRes dr; std::string out;
+    try {
+      G a; configure(a, CFGS[cfg]); Tape it; it.seed = iseed; TapeRandom r0(it, 0, 200000); a.initialize(r0);
+      int rq[2], rs[2]; if (pipe(rq) || pipe(rs)) _exit(5);
+      pid_t twin = fork();
+      if (twin == 0) { // cold twin: serves "shoot tape T" requests, each in a grandchild so that the twin itself never shoots
+        close(rq[1]); close(rs[0]); uint32_t ts;
+        while (rd(rq[0], &ts, sizeof ts)) {
+          int gp[2]; if (pipe(gp)) _exit(5);
+          pid_t g = fork();
+          if (g == 0) { close(gp[0]); std::vector<double> v; try { bxdecay0::event e; Tape t; shot_tape(t, cfg, ts); TapeRandom r(t, 0, 200000); a.shoot(r, e); ev_flat(e, r.pos, v); } catch (std::exception &) { v.assign(1, -1.0); }
+            uint32_t n = (uint32_t)v.size(); wr(gp[1], &n, sizeof n); wr(gp[1], v.data(), n * sizeof(double)); _exit(0); }
+          close(gp[1]); uint32_t n = 0; std::vector<double> v; if (rd(gp[0], &n, sizeof n) && n < 100000) { v.resize(n); if (n) rd(gp[0], v.data(), n * sizeof(double)); } close(gp[0]); int st; waitpid(g, &st, 0);
+          wr(rs[1], &n, sizeof n); if (n) wr(rs[1], v.data(), n * sizeof(double));
+        }
+        _exit(0);
+      }
+      close(rq[0]); close(rs[1]);
+      bxdecay0::event reused;
+      for (long i = 0; i < warm; i++) { Tape t; shot_tape(t, cfg, (uint32_t)(1000 + i)); TapeRandom r(t, 0, 200000); if (i % 2) { bxdecay0::event e; a.shoot(r, e); } else a.shoot(r, reused); }
+      for (long j = 0; j < ncmp && dr.ok; j++) {
+        uint32_t ts = (uint32_t)(only >= 0 ? only : 1000000 + j);
+        wr(rq[1], &ts, sizeof ts); uint32_t n = 0; std::vector<double> want; if (!rd(rs[0], &n, sizeof n)) throw std::runtime_error("cold twin died"); want.resize(n); if (n) rd(rs[0], want.data(), n * sizeof(double));
+        bxdecay0::event e; Tape t; shot_tape(t, cfg, ts); TapeRandom r(t, 0, 200000); std::vector<double> got;
+        try { a.shoot(r, e); ev_flat(e, r.pos, got); } catch (std::exception &) { got.assign(1, -1.0); }
+        dr.compared++;
+        if (got.size() != want.size() || (got.size() && memcmp(got.data(), want.data(), got.size() * sizeof(double)))) {
+          dr.ok = false; dr.tape = ts;
+          dr.msg = "after " + std::to_string(warm + j) + " earlier shots of the same instance, the event for tape " + std::to_string(ts) + " differs from what the instance's cold twin (forked right after initialize(), never shot) produces for the same tape: "
+                 + std::to_string(got.size() > 2 ? (got.size() - 2) / 5 : 0) + " particles / " + std::to_string(got.empty() ? 0 : (long)got[0]) + " deviates vs " + std::to_string(want.size() > 2 ? (want.size() - 2) / 5 : 0) + " particles / " + std::to_string(want.empty() ? 0 : (long)want[0]) + " deviates";
+          for (size_t i = 2; i < std::min(got.size(), want.size()); i++) if (memcmp(&got[i], &want[i], sizeof(double))) { dr.msg += "; first difference: particle " + std::to_string((i - 2) / 5) + " field " + std::to_string((i - 2) % 5) + " " + jnum(got[i]) + " vs " + jnum(want[i]); break; }
+        }
+        if (only >= 0) break;
+      }
+      close(rq[1]); int st; waitpid(twin, &st, 0);
+    } catch (std::exception & e) { dr.ok = false; dr.tape = -2; dr.msg = std::string("exception: ") + e.what(); }
+    out = std::string(dr.ok ? "1" : "0") + "\n" + std::to_string(dr.tape) + "\n" + std::to_string(dr.compared) + "\n" + dr.msg;
+    wr(p[1], out.data(), out.size()); _exit(0);
+  }
+  close(p[1]); std::string in; char buf[4096]; ssize_t k; while ((k = read(p[0], buf, sizeof buf)) > 0) in.append(buf, k); close(p[0]);
+  int st; waitpid(c, &st, 0);
+  DeepRes dr;
+  if (!WIFEXITED(st) || WEXITSTATUS(st) != 0 || in.size() < 5) { dr.ok = false; dr.tape = -3; dr.msg = "the deep history crashed the process (status " + std::to_string(st) + ")"; return dr; }
+  size_t a1 = in.find('\n'), a2 = in.find('\n', a1 + 1), a3 = in.find('\n', a2 + 1);
+  dr.ok = in[0] == '1'; dr.tape = atol(in.substr(a1 + 1, a2 - a1 - 1).c_str()); dr.compared = atol(in.substr(a2 + 1, a3 - a2 - 1).c_str()); dr.msg = in.substr(a3 + 1);
+  return dr;
+}
+
 struct Ctx { Report rep; Known known; std::string replaydir; };
 
 static void record(Ctx & cx, const std::vector<Op> & ops, const RunInfo & ri)
@@ -330,6 +390,10 @@ int main(int argc, char ** argv)
   cfgs(); start_oracle_server();
   if (a.has("replay")) {
     JV j = jload(a.s("replay")); std::vector<Op> ops;
+    if (j.has("deep")) {
+      const JV & d = j.at("deep"); DeepRes dr = deep_history_forked((int)d.n("cfg", 0), (uint32_t)d.n("iseed", 0), (long)d.n("warm", 0), 1, (long)d.n("tape", 0));
+      dprintf(out_fd, dr.ok ? "REPLAY-PASS\n" : "REPLAY-FAIL class=deep-history %s\n", dr.msg.c_str()); return dr.ok ? 0 : 1;
+    }
     for (auto & e : j.at("ops").arr) ops.push_back({(int)e.arr[0].num, (int)e.arr[1].num, (int)e.arr[2].num, (int)e.arr[3].num, (int)e.arr[4].num, (uint32_t)e.arr[5].num});
     RunInfo ri = run_history(ops);
     dprintf(out_fd, ri.ok ? "REPLAY-PASS\n" : "REPLAY-FAIL class=%s %s\n", ri.cls.c_str(), ri.msg.c_str()); return ri.ok ? 0 : 1;
@@ -388,6 +452,32 @@ int main(int argc, char ** argv)
           if (!removed || chunk == 1) { if (chunk == 1) break; chunk /= 2; } else if (chunk > cur.size() / 2) chunk = std::max<size_t>(1, cur.size() / 2);
         }
         record(cx, cur, ri);
+      }
+    }
+    // ---- deep single-instance histories (see deep_history_forked): the configurations whose sampling keeps per-instance working data
+    // (all double-beta entries of the pool) plus a few background nuclides, dealt out over the shards
+    long dwarm = a.i("deepwarm", 6000), dcmp = a.i("deepcmp", 3000);
+    if (dcmp > 0 && cx.rep.failures.empty()) {
+      std::vector<int> deep; for (int i = 0; i < NCFG; i++) { const CfgT & c = CFGS[i]; if (c.mdl) continue; if (std::string(c.kind) == "dbd" || i < 8) deep.push_back(i); }
+      int nsh = a.i("nshards", 1);
+      for (size_t di = 0; di < deep.size(); di++) {
+        if ((int)(di % nsh) != shard) continue;
+        int cfg = deep[di]; uint32_t iseed = (uint32_t)(mix(seed, 77 + di) % 1000);
+        DeepRes dr = deep_history_forked(cfg, iseed, dwarm, dcmp, -1);
+        cx.rep.evaluations += dr.compared; cx.rep.counters["deep_history_compared_shots"] += dr.compared; cx.rep.counters["deep_history_warmup_shots"] += dwarm;
+        std::string tgt = std::string(CFGS[cfg].name) + ":" + std::to_string(CFGS[cfg].level) + ":" + std::to_string(CFGS[cfg].mode);
+        if (dr.ok) { cx.rep.nt("deep|" + tgt); cx.rep.label("deep-history:" + tgt); continue; }
+        if (dr.tape < 0) { std::string sig = "C07|deep-history-crash:" + tgt; std::string path = cx.replaydir + "/C07-" + hash_name(sig) + ".json"; std::ofstream(path) << "{\"property\":\"C07\",\"deep\":{\"cfg\":" << cfg << ",\"iseed\":" << iseed << ",\"warm\":" << dwarm << ",\"tape\":1000000},\"sig\":" << jstr(sig) << ",\"msg\":" << jstr(dr.msg) << "}\n"; cx.rep.failures.push_back({sig, dr.msg, path}); continue; }
+        // minimise the warm-up: the smallest of warm/2^k for which the same tape still differs (each candidate in a fresh child), confirmed 3x
+        long w = dwarm + (dr.tape - 1000000); long best = w; DeepRes bres = deep_history_forked(cfg, iseed, w, 1, dr.tape);
+        if (bres.ok) { cx.rep.count("deep_failure_not_reproduced_alone"); bres = dr; best = -1; }
+        else for (long cand = w / 2; cand >= 1; cand /= 2) { DeepRes r2 = deep_history_forked(cfg, iseed, cand, 1, dr.tape); if (!r2.ok && r2.tape == dr.tape) { best = cand; bres = r2; } else break; }
+        int again = 0; if (best >= 0) for (int k = 0; k < 3; k++) { DeepRes r3 = deep_history_forked(cfg, iseed, best, 1, dr.tape); if (!r3.ok) again++; }
+        if (best >= 0 && again < 3) { cx.rep.count("unstable_deep_failure_dropped"); continue; }
+        std::string sig = "C07|history-dependent-deep:" + tgt; std::string kid = cx.known.match("C07", sig); if (!kid.empty()) { cx.rep.known[kid]++; continue; }
+        std::string path = cx.replaydir + "/C07-" + hash_name(sig + std::to_string(dr.tape)) + ".json";
+        std::ofstream(path) << "{\"property\":\"C07\",\"deep\":{\"cfg\":" << cfg << ",\"iseed\":" << iseed << ",\"warm\":" << (best >= 0 ? best : w) << ",\"tape\":" << dr.tape << "},\"config\":" << jstr(tgt) << ",\"sig\":" << jstr(sig) << ",\"msg\":" << jstr(bres.msg) << "}\n";
+        cx.rep.failures.push_back({sig, bres.msg, path});
       }
     }
   } catch (std::exception & e) { fprintf(res, "HARNESS-ERROR %s\n", e.what()); fflush(res); return 2; }
